@@ -17,7 +17,11 @@
 //!   `cp max n v…`    `compress`; I vs M (table, sorted map); I vs S = Lean `checkCompress` on the
 //!                    real output (≤ max classes, within half the tolerance, tolerance minimal).
 //!   `nl drop k ne… n (s l)…`  `NextLargerProgram::new` with `character_exists = c ∉ ne`; warnings
-//!                    and `get(c)` for all 256 characters against the Lean specification.
+//!                    and `get(c)` for all 256 characters against the Lean transcription and the
+//!                    cut-graph specification.
+//!   `plnl n (s l)…`  the same graph as a property list (one CHARACTER entry per endpoint with
+//!                    NEXTLARGER) through `pl::File::from_pl_source_code`: InfiniteLoop warnings and
+//!                    the links that survive in `char_tags` against the specification.
 
 use std::collections::{BTreeSet, HashMap};
 use tfm::{Char, FixWord, NextLargerProgram, NextLargerProgramWarning};
@@ -381,6 +385,72 @@ impl C17 {
         }
     }
 
+    /// The same graphs through a property list: one CHARACTER entry per endpoint, NEXTLARGER
+    /// links; observed: the InfiniteLoop warnings and the links that survive in `char_tags`.
+    fn run_plnl(&mut self, rest: &str, drv: &mut Driver, out: &mut CaseOutcome) {
+        let a = parse_i64s(rest);
+        let n = a[0] as usize;
+        let es: Vec<(u8, u8)> = (0..n).map(|i| (a[1 + 2 * i] as u8, a[2 + 2 * i] as u8)).collect();
+        let link: std::collections::BTreeMap<u8, u8> = es.iter().copied().collect();
+        if link.len() != es.len() {
+            out.tag("plnl:duplicate-smaller-skipped");
+            return;
+        }
+        out.nontrivial = n >= 2;
+        out.tag("plnl:cases");
+        let nodes: BTreeSet<u8> = es.iter().flat_map(|e| [e.0, e.1]).collect();
+        let mut src = String::new();
+        for c in &nodes {
+            match link.get(c) {
+                Some(l) => src.push_str(&format!("(CHARACTER O {:o} (CHARWD R 1.0) (NEXTLARGER O {:o}))\n", c, l)),
+                None => src.push_str(&format!("(CHARACTER O {:o} (CHARWD R 1.0))\n", c)),
+            }
+        }
+        // specification: same request as `nl`, nothing dropped, every endpoint exists
+        let reply = drv.ask(&nl_case(false, &[], &es));
+        let spec = reply.split(" | ").next().unwrap().to_string();
+        let spec_loops = spec.split(" ; ").nth(1).unwrap_or("0").to_string();
+        let lv = parse_i64s(&spec_loops);
+        let cut: BTreeSet<u8> = (0..lv[0] as usize).map(|i| lv[1 + 2 * i] as u8).collect();
+        let mut want_links: Vec<i64> = vec![];
+        for (s, l) in &link {
+            if !cut.contains(s) {
+                want_links.extend([*s as i64, *l as i64]);
+            }
+        }
+        match caught(|| tfm::pl::File::from_pl_source_code(&src)) {
+            Err(p) => out.fail(Kind::ImplPanic, "plnl", format!("panic {}", strip_msg(&p)), format!("from_pl_source_code panicked on {} CHARACTER entries with NEXTLARGER: {p}", nodes.len())),
+            Ok((f, ws)) => {
+                let mut loops: Vec<i64> = vec![];
+                let mut other = 0;
+                for w in &ws {
+                    match &w.kind {
+                        tfm::pl::ParseWarningKind::CycleInNextLargerProgram(NextLargerProgramWarning::InfiniteLoop { original, next_larger }) => {
+                            loops.extend([original.0 as i64, next_larger.0 as i64])
+                        }
+                        _ => other += 1,
+                    }
+                }
+                let mut links: Vec<i64> = vec![];
+                for (c, t) in &f.char_tags {
+                    if let Some(l) = t.list() {
+                        links.extend([c.0 as i64, l.0 as i64]);
+                    }
+                }
+                let i_loops = if loops.is_empty() { "0".to_string() } else { format!("{} {}", loops.len() / 2, join(&loops)) };
+                if !loops.is_empty() {
+                    out.tag("plnl:cycle-cut");
+                }
+                if i_loops != spec_loops || other != 0 {
+                    out.fail(Kind::ImplVsSpec, "plnl", "property list: InfiniteLoop warnings differ", format!("impl {i_loops} (+{other} other warnings)\nspec {spec_loops}"));
+                }
+                if links != want_links {
+                    out.fail(Kind::ImplVsSpec, "plnl", "property list: surviving NEXTLARGER links differ", format!("impl {}\nspec {}", join(&links), join(&want_links)));
+                }
+            }
+        }
+    }
+
     fn run_nl(&mut self, case: &str, rest: &str, drv: &mut Driver, out: &mut CaseOutcome) {
         let a = parse_i64s(rest);
         let drop = a[0] != 0;
@@ -392,6 +462,17 @@ impl C17 {
         let functional = smallers.len() == es.len();
         out.nontrivial = n >= 2;
         out.tag(if functional { "nl:functional" } else { "nl:duplicate-smaller" });
+        {
+            let mut indeg = [0u32; 256];
+            for e in &es {
+                indeg[e.1 as usize] += 1;
+            }
+            let mx = indeg.iter().copied().max().unwrap_or(0);
+            out.tag(format!("nl:max-in-degree={}", match mx { 0..=1 => "0..1", 2..=15 => "2..15", 16..=127 => "16..127", 128..=254 => "128..254", 255 => "255", _ => "256" }));
+            if es.len() == 256 {
+                out.tag("nl:all-256-characters-linked");
+            }
+        }
         let m = drv.ask(case);
         // reply: `<specification> | <transcription, ascending order> | <same for descending order>`
         let mut parts = m.split(" | ");
@@ -615,6 +696,114 @@ fn nl_case(drop: bool, ne: &[u8], es: &[(u8, u8)]) -> String {
     format!("nl {}", join(&v))
 }
 
+/// Structured extreme functional graphs on the full 256-character set (every character has at
+/// most one link): hubs of maximal in-degree, long paths, permutations of every cycle type.
+fn extreme_fixed() -> Vec<Vec<(u8, u8)>> {
+    let all = || 0..=255u8;
+    let mut out: Vec<Vec<(u8, u8)>> = vec![];
+    // stars onto a hub, without / with the hub's self-loop: in-degree 255 / 256
+    for h in [0u8, 65, 200, 255] {
+        out.push(all().filter(|c| *c != h).map(|c| (c, h)).collect());
+        out.push(all().map(|c| (c, h)).collect());
+        // 254 links + self loop (in-degree 255 incl. itself)
+        out.push(all().filter(|c| *c != h.wrapping_add(1)).map(|c| (c, h)).collect());
+    }
+    // several hubs sharing the characters (hubs point at each other / themselves)
+    for k in [2usize, 3, 4, 16] {
+        let hubs: Vec<u8> = (0..k).map(|i| (i * 255 / (k - 1).max(1)) as u8).collect();
+        out.push(all().map(|c| (c, hubs[c as usize % k])).collect());
+        out.push(all().filter(|c| !hubs.contains(c)).map(|c| (c, hubs[c as usize % k])).collect());
+    }
+    // two hubs with 128 links each, the hubs in a 2-cycle
+    out.push(all().map(|c| if c == 0 { (0, 255) } else if c == 255 { (255, 0) } else { (c, if c < 128 { 0 } else { 255 }) }).collect());
+    // long paths 0 -> 1 -> ... -> 255 ending in a cycle of length j+1 (j = 0: self-loop; 255: the 256-cycle)
+    for j in [0u8, 1, 2, 127, 254, 255] {
+        out.push(all().map(|c| if c == 255 { (255, 255 - j) } else { (c, c + 1) }).collect());
+    }
+    // the same downwards (the largest character is the entry of the path, not on the cycle)
+    for j in [0u8, 1, 5, 255] {
+        out.push(all().map(|c| if c == 0 { (0, j) } else { (c, c - 1) }).collect());
+    }
+    // paths of length 255 / 254 without a cycle
+    out.push((0..255u8).map(|c| (c, c + 1)).collect());
+    out.push((1..=255u8).map(|c| (c, c - 1)).collect());
+    out.push((0..254u8).map(|c| (c, c + 1)).collect());
+    // "all point to c + k mod 256": gcd(k, 256) cycles of length 256 / gcd
+    for k in [1u16, 2, 3, 4, 64, 127, 128, 255] {
+        out.push(all().map(|c| (c, ((c as u16 + k) % 256) as u8)).collect());
+    }
+    // 128 two-cycles, interleaved and nested
+    out.push(all().map(|c| (c, c ^ 1)).collect());
+    out.push(all().map(|c| (c, 255 - c)).collect());
+    // cycles of lengths 1, 2, 3, …, 22 and one of 3 (sum 256), consecutive blocks
+    let mut lens: Vec<usize> = (1..=22).collect();
+    lens.push(3);
+    for ls in [lens, vec![128, 128], vec![255, 1], vec![1, 255], vec![85, 85, 86], vec![2; 128], vec![1; 256]] {
+        let mut es = vec![];
+        let mut start = 0usize;
+        for l in ls {
+            for i in 0..l {
+                es.push(((start + i) as u8, (start + (i + 1) % l) as u8));
+            }
+            start += l;
+        }
+        out.push(es);
+    }
+    out
+}
+
+fn extreme_random(r: &mut Rng) -> Vec<(u8, u8)> {
+    let mut es: Vec<(u8, u8)> = match r.below(4) {
+        0 => {
+            // a few hubs of high in-degree, the rest random
+            let hubs: Vec<u8> = (0..r.range(1, 4)).map(|_| r.below(256) as u8).collect();
+            let p = r.range(50, 100) as u64;
+            (0..=255u8).map(|c| (c, if r.chance(p, 100) { *r.pick(&hubs) } else { r.below(256) as u8 })).collect()
+        }
+        1 => {
+            // random permutation: random cycle type
+            let mut p: Vec<u8> = (0..=255u8).collect();
+            for i in (1..256usize).rev() {
+                let j = r.below((i + 1) as u64) as usize;
+                p.swap(i, j);
+            }
+            (0..=255u8).map(|c| (c, p[c as usize])).collect()
+        }
+        2 => {
+            // a star under a random relabelling, hub in or out
+            let h = r.below(256) as u8;
+            let with_self = r.chance(1, 2);
+            (0..=255u8).filter(|c| with_self || *c != h).map(|c| (c, h)).collect()
+        }
+        _ => {
+            // a long path through a random relabelling, closed somewhere
+            let mut p: Vec<u8> = (0..=255u8).collect();
+            for i in (1..256usize).rev() {
+                let j = r.below((i + 1) as u64) as usize;
+                p.swap(i, j);
+            }
+            let back = r.below(256) as usize;
+            (0..256usize).map(|i| (p[i], if i == 255 { p[back] } else { p[i + 1] })).collect()
+        }
+    };
+    if r.chance(1, 2) {
+        for i in (1..es.len()).rev() {
+            let j = r.below((i + 1) as u64) as usize;
+            es.swap(i, j);
+        }
+    }
+    es
+}
+
+fn plnl_case(es: &[(u8, u8)]) -> String {
+    let mut v: Vec<i64> = vec![es.len() as i64];
+    for e in es {
+        v.push(e.0 as i64);
+        v.push(e.1 as i64);
+    }
+    format!("plnl {}", join(&v))
+}
+
 fn gen_nl(r: &mut Rng, max_nodes: usize) -> String {
     let n = 1 + r.below(max_nodes as u64) as usize;
     // distinct labels
@@ -667,7 +856,7 @@ impl Property for C17 {
          ps: structured random decimal texts (prefix, signs, integer part around 2047/2048, 0..9 fraction digits, junk) through the real reader; \
          sc: (value, design size) grid over boundary values (bytes of v, z at every halving threshold) and random pairs; \
          cp: all lists of length ≤ 4 over 6 values × class limits 1..3, then random multisets of ≤ 300 values (clustered, progressions, legal range, powers of two, a few at the ends of the i32 range) × class limits 1..255; \
-         nl: all functional graphs on ≤ 5 nodes (quick: ≤ 4, and a third of those on 5) with permuted labels, random graphs ≤ 256 nodes (random maps, permutations, one big cycle, chains, forests), non-existent targets kept/dropped. \
+         nl: all functional graphs on ≤ 5 nodes (quick: ≤ 4, and a third of those on 5) with permuted labels, random graphs ≤ 256 nodes (random maps, permutations, one big cycle, chains, forests), non-existent targets kept/dropped; structured extreme graphs on all 256 characters (stars onto hubs 0/65/200/255 with in-degree 254/255/256, several hubs, paths of length 254..256 into cycles of length 1..256, c -> c+k mod 256, 128 two-cycles, permutations of many cycle types) as a fixed set plus random ones (hubs, random permutations, relabelled stars and paths), and the same shapes through a property list with one CHARACTER/NEXTLARGER entry per character (plnl: InfiniteLoop warnings and surviving links against the cut graph; quick: a quarter of them, thorough: all). \
          Non-trivial = pp: some value with a non-zero fraction; ps: text contains a digit; sc: inside the guard with v ≠ 0 and ds ≠ 0; cp: more distinct values than classes; nl: at least 2 edges; sweeps always. distinct = distinct case string."
             .into()
     }
@@ -833,6 +1022,23 @@ impl Property for C17 {
         for _ in 0..n_nl {
             v.push(gen_nl(&mut r, 24));
         }
+        // structured extreme graphs on all 256 characters (hubs of in-degree 255/256, long paths,
+        // permutations of every cycle type): a fixed set, then random ones; the same shapes
+        // through a property list (256 CHARACTER entries with NEXTLARGER)
+        let fixed = extreme_fixed();
+        for (i, es) in fixed.iter().enumerate() {
+            v.push(nl_case(i % 2 == 0, &[], es));
+            if t || i % 4 == 0 {
+                v.push(plnl_case(es));
+            }
+        }
+        for i in 0..(if t { 400 } else { 24 }) {
+            let es = extreme_random(&mut r);
+            v.push(nl_case(r.chance(1, 2), &[], &es));
+            if t || i % 6 == 0 {
+                v.push(plnl_case(&es));
+            }
+        }
         for _ in 0..n_nl_big {
             v.push(gen_nl(&mut r, 256));
         }
@@ -849,6 +1055,7 @@ impl Property for C17 {
             "sc" => self.run_sc(case, rest, drv, &mut out),
             "cp" => self.run_cp(case, rest, drv, &mut out),
             "nl" => self.run_nl(case, rest, drv, &mut out),
+            "plnl" => self.run_plnl(rest, drv, &mut out),
             _ => panic!("bad case {case}"),
         }
         out
@@ -883,6 +1090,20 @@ impl Property for C17 {
                 // smaller numbers
                 let small: Vec<i64> = a[2..].iter().map(|x| x / 2).collect();
                 c.push(format!("cp {} {} {}", max, small.len(), join(&small)));
+            }
+            "plnl" => {
+                let a = parse_i64s(rest);
+                let n = a[0] as usize;
+                let es: Vec<(u8, u8)> = (0..n).map(|i| (a[1 + 2 * i] as u8, a[2 + 2 * i] as u8)).collect();
+                if n > 1 {
+                    c.push(plnl_case(&es[..n / 2]));
+                    c.push(plnl_case(&es[n / 2..]));
+                    for i in 0..n {
+                        let mut o = es.clone();
+                        o.remove(i);
+                        c.push(plnl_case(&o));
+                    }
+                }
             }
             "nl" => {
                 let a = parse_i64s(rest);
